@@ -81,6 +81,14 @@ impl Ctx {
     }
 
     pub fn place(&mut self, place: Place, a: usize, data: &[u8]) -> &[u8] {
+        // the arenas grow with the largest haystack placed so far
+        let need = BASE + a + data.len() + 256;
+        if need > self.plain.rw_len() {
+            self.plain = Arena::plain(need / mcore::arena::PAGE + 2);
+        }
+        if data.len() + 256 > self.guard.rw_len() {
+            self.guard = Arena::guarded((data.len() + 256) / mcore::arena::PAGE + 2);
+        }
         match place {
             // even offsets: neighbours are copies of the needle (a read
             // outside the slice that is USED gives a wrong answer); odd
